@@ -34,6 +34,10 @@ def curves():
     out = {"default": None, "linear": lin, "all0": [0] * 257, "all32768": [32768] * 257}
     for pos in (1, 64, 128, 255):
         out[f"step{pos}"] = [0] * pos + [32768] * (257 - pos)
+    # strictly non-linear monotone curves (interpolation between neighbours matters only for these)
+    out["sqrt"] = [min(32768, int(32768 * (i / 256) ** 0.5)) for i in range(257)]
+    out["square"] = [min(32768, int(32768 * (i / 256) ** 2)) for i in range(257)]
+    out["stair16"] = [min(32768, (i // 16) * 2048) for i in range(257)]
     return out
 
 
@@ -51,6 +55,9 @@ def grid(thorough):
         for w in (base_w, (32768, 0), (100, 30000)):
             tuples.append((256, 32768, w, cn))
             tuples.append((300, 7, w, cn))
+            if cn in ("sqrt", "square", "stair16"):
+                tuples.append((384, 32768, w, cn))
+                tuples.append((1024, 32768, w, cn))
     seen = []
     for t in tuples:
         if t not in seen:
@@ -58,7 +65,12 @@ def grid(thorough):
     if thorough:
         return seen
     keep = [t for i, t in enumerate(seen) if i % 4 == 0 or t[2] in ((32768, 0), (1, 0)) and i % 2 == 0]
-    return keep[:36]
+    keep = keep[:36]
+    # gain above unity TOGETHER with a non-linear curve, unquantised, normal and reversed window (always kept)
+    for t in seen:
+        if t[3] in ("sqrt", "square", "stair16") and t[0] > 256 and t[1] == 32768 and t[2] in (base_w, (32768, 0)) and t not in keep:
+            keep.append(t)
+    return keep
 
 
 def targets():
